@@ -68,6 +68,7 @@ type FuncSpec struct {
 	Flows    map[string][]string
 	AssignsNone bool
 	Holds    []string
+	Acquires []string // locks the function takes (and releases) while it runs
 	Allocates map[string]bool
 	DeadReturn map[int]bool // return statements (by ordinal) the contract declares unreachable
 	Binds      map[string]map[string]string // callee -> ghost parameter -> caller expression
@@ -120,6 +121,7 @@ type Lemma struct {
 
 type ContractFile struct {
 	Path   string
+	LockOrder [][2]string // declared order: [0] may be held while [1] is taken
 	Funcs  []*FuncSpec
 	Types  []*TypeSpec
 	Specs  []*SpecFunc
@@ -131,7 +133,7 @@ var clauseKeywords = map[string]bool{
 	"props": true, "trusted": true, "pure": true, "requires": true, "ensures": true,
 	"modifies": true, "ghost": true, "use": true, "on": true, "after": true, "before": true,
 	"loop": true, "invariant": true, "hint": true, "preserved": true, "apply": true, "decreases": true, "nonnil": true, "lock": true,
-	"lockinv": true, "guarantee": true, "rely": true, "fresh": true, "exit": true, "flows": true, "assigns": true, "assumes": true, "holds": true, "allocates": true, "deadreturn": true, "bind": true, "locals": true, "nilable": true, "nosafety": true, "using": true,
+	"lockinv": true, "guarantee": true, "rely": true, "fresh": true, "exit": true, "flows": true, "assigns": true, "assumes": true, "holds": true, "allocates": true, "deadreturn": true, "bind": true, "locals": true, "nilable": true, "nosafety": true, "forbids": true, "acquires": true, "lockorder": true, "using": true,
 }
 
 type rawClause struct {
@@ -399,6 +401,22 @@ func parseContractFile(path string, requirePrefix bool) (*ContractFile, error) {
 			for _, n := range splitNames(rc.rest) {
 				curF.Allocates[n] = true
 			}
+		case "acquires":
+			if curF == nil {
+				return nil, errf(rc, "acquires outside func")
+			}
+			curF.Acquires = append(curF.Acquires, splitNames(rc.rest)...)
+		case "lockorder":
+			// lockorder A < B: B may be taken while A is held, never the reverse
+			parts := strings.Split(rc.rest, "<")
+			if len(parts) < 2 {
+				return nil, errf(rc, "lockorder needs A < B")
+			}
+			for i := 0; i+1 < len(parts); i++ {
+				for j := i + 1; j < len(parts); j++ {
+					cf.LockOrder = append(cf.LockOrder, [2]string{strings.TrimSpace(parts[i]), strings.TrimSpace(parts[j])})
+				}
+			}
 		case "holds":
 			if curF == nil {
 				return nil, errf(rc, "holds outside func")
@@ -532,6 +550,21 @@ func parseContractFile(path string, requirePrefix bool) (*ContractFile, error) {
 				return nil, errf(rc, "bad on-hook: %q", rc.rest)
 			}
 			curF.Hooks = append(curF.Hooks, &Hook{Kind: m[1], Target: m[2], Params: splitNames(m[3]), Results: splitNames(m[4]), Body: m[5], Props: props, File: path, Line: rc.line})
+			curL = nil
+		case "forbids":
+			// forbids label: pkg.Fn pkg.T.Method ...  - none of these is ever
+			// called by the function (sugar for one `on enter X(): assert(false, label)` each)
+			if curF == nil {
+				return nil, errf(rc, "forbids outside func")
+			}
+			i := strings.Index(rc.rest, ":")
+			if i < 0 {
+				return nil, errf(rc, "forbids needs `label: names`")
+			}
+			label := strings.TrimSpace(rc.rest[:i])
+			for _, n := range strings.Fields(rc.rest[i+1:]) {
+				curF.Hooks = append(curF.Hooks, &Hook{Kind: "enter", Target: n, Body: fmt.Sprintf("assert(false, %q)", label), File: path, Line: rc.line})
+			}
 			curL = nil
 		case "after", "before":
 			if curF == nil {
